@@ -1,4 +1,7 @@
 import LinOp.C06.Proofs
+import LinOp.C06.ProofsPost
+import LinOp.C06.ProofsCompose
+import LinOp.C06.ProofsLanczos
 import LinOp.Generated.C06Consts
 import Mathlib.Data.Sign.Basic
 import Mathlib.Algebra.Order.Field.Basic
@@ -481,6 +484,197 @@ theorem lanczos_rootInv_full (Q A V : Matrix n n α) (th t : n → α) (j : α) 
     _ = (Q * Qᵀ) * A * (Q * Qᵀ) + j • (Q * Qᵀ) := by simp only [Matrix.mul_assoc]
     _ = A + j • (1 : Matrix n n α) := by rw [hQ', Matrix.one_mul, Matrix.mul_one]
 
+/-! ### Overrides of `_symeig` / `_svd` (Diag, Identity, Kronecker `_svd`, BatchRepeat), sign conventions -/
+
+/-- `DiagLinearOperator._symeig` / `IdentityLinearOperator._symeig`: eigenvalues = the diagonal, eigenvectors = `I`. -/
+theorem diag_symeig (d : n → α) :
+    (1 : Matrix n n α)ᵀ * 1 = 1 ∧ (1 : Matrix n n α) * diagonal d * (1 : Matrix n n α)ᵀ = diagonal d := by
+  simp
+
+/-- `DiagLinearOperator._svd` (as corrected by fix_4): `U = I`, `S = |d|`, `V = diag(sign d)` with `sign 0 := +1`:
+abstractly, for any `sg, ab` with `sg·ab = d` and `sg² = 1`: `U diag(S) Vᵀ = diag d`, `UᵀU = 1`, `VᵀV = 1`. -/
+theorem diag_svd (d sg ab : n → α) (h : ∀ i, sg i * ab i = d i) (h1 : ∀ i, sg i * sg i = 1) :
+    (1 : Matrix n n α) * diagonal ab * (diagonal sg)ᵀ = diagonal d ∧ (1 : Matrix n n α)ᵀ * 1 = 1 ∧
+      (diagonal sg)ᵀ * diagonal sg = 1 := by
+  refine ⟨?_, by simp, ?_⟩
+  · rw [Matrix.one_mul, diagonal_transpose, diagonal_mul_diagonal]
+    congr 1; funext i; rw [mul_comm]; exact h i
+  · rw [diagonal_transpose, diagonal_mul_diagonal, show (fun i => sg i * sg i) = fun _ => (1 : α) from funext h1,
+      diagonal_one]
+
+/-- … with the concrete convention of the code over an ordered field: `signs = where(d < 0, −1, 1)`, `S = |d|`;
+also `S ≥ 0`.  Zero and negative diagonal entries included. -/
+theorem diag_svd_ordered {F : Type} [Field F] [LinearOrder F] [IsStrictOrderedRing F] (d : n → F) :
+    (1 : Matrix n n F) * diagonal (fun i => |d i|) * (diagonal fun i => if d i < 0 then (-1 : F) else 1)ᵀ = diagonal d ∧
+      (diagonal fun i => if d i < 0 then (-1 : F) else 1)ᵀ * (diagonal fun i => if d i < 0 then (-1 : F) else 1) = 1 ∧
+      ∀ i, 0 ≤ |d i| := by
+  have h := diag_svd d (fun i => if d i < 0 then (-1 : F) else 1) (fun i => |d i|)
+    (fun i => by
+      by_cases hd : d i < 0
+      · simp [hd, abs_of_neg hd]
+      · simp [hd, abs_of_nonneg (not_lt.1 hd)])
+    (fun i => by by_cases hd : d i < 0 <;> simp [hd])
+  exact ⟨h.1, h.2.2, fun i => abs_nonneg _⟩
+
+/-- The elementwise product `evecs * signs.unsqueeze(-1)` of the identity-structured eigenvector operator that
+`DiagLinearOperator._svd` used before fix_4 keeps only one sign: for `d = (0, 1)` under `sign 0 = 0` the result `V = 0`
+is not orthogonal (the `C06/exact/svd-diag/zero-first` cell). -/
+theorem diag_svd_zero_sign_counterexample :
+    ∃ (sg : Fin 2 → ℚ), (∀ i, sg i = SignType.sign (![0, 1] i : ℚ)) ∧ (diagonal sg)ᵀ * diagonal sg ≠ (1 : Matrix (Fin 2) (Fin 2) ℚ) := by
+  refine ⟨![0, 1], ?_, ?_⟩
+  · intro i; fin_cases i <;> simp
+  · intro h
+    have := congrFun (congrFun h 0) 0
+    simp [Matrix.mul_apply, Fin.sum_univ_two, Matrix.diagonal_apply] at this
+
+/-- `KroneckerProductLinearOperator._svd`: from the factors' SVDs, `U = U₁ ⊗ U₂`, `S = S₁ ⊗ S₂` (the diagonal of the
+Kronecker product of the diagonal matrices), `V = V₁ ⊗ V₂`: reconstructs `A₁ ⊗ A₂`, `U`, `V` orthonormal. -/
+theorem kron_svd {m : Type} [Fintype m] [DecidableEq m] (U₁ V₁ A₁ : Matrix n n α) (U₂ V₂ A₂ : Matrix m m α)
+    (s₁ : n → α) (s₂ : m → α) (hU₁ : U₁ᵀ * U₁ = 1) (hU₂ : U₂ᵀ * U₂ = 1) (hV₁ : V₁ᵀ * V₁ = 1) (hV₂ : V₂ᵀ * V₂ = 1)
+    (a₁ : U₁ * diagonal s₁ * V₁ᵀ = A₁) (a₂ : U₂ * diagonal s₂ * V₂ᵀ = A₂) :
+    (U₁ ⊗ₖ U₂) * diagonal (fun p : n × m => s₁ p.1 * s₂ p.2) * (V₁ ⊗ₖ V₂)ᵀ = A₁ ⊗ₖ A₂ ∧
+      (U₁ ⊗ₖ U₂)ᵀ * (U₁ ⊗ₖ U₂) = 1 ∧ (V₁ ⊗ₖ V₂)ᵀ * (V₁ ⊗ₖ V₂) = 1 := by
+  refine ⟨?_, ?_, ?_⟩
+  · rw [← diagonal_kronecker_diagonal, ← kroneckerMap_transpose, ← mul_kronecker_mul, ← mul_kronecker_mul, a₁, a₂]
+  · rw [← kroneckerMap_transpose, ← mul_kronecker_mul, hU₁, hU₂, one_kronecker_one]
+  · rw [← kroneckerMap_transpose, ← mul_kronecker_mul, hV₁, hV₂, one_kronecker_one]
+
+/-- … and the Kronecker singular values are non-negative when the factors' are (ordered field). -/
+theorem kron_svd_nonneg {F : Type} [Field F] [LinearOrder F] [IsStrictOrderedRing F] {m : Type} (s₁ : n → F) (s₂ : m → F)
+    (h₁ : ∀ i, 0 ≤ s₁ i) (h₂ : ∀ j, 0 ≤ s₂ j) (p : n × m) : 0 ≤ s₁ p.1 * s₂ p.2 :=
+  mul_nonneg (h₁ _) (h₂ _)
+
+/-- `BatchRepeatLinearOperator._symeig/_svd`: batch member `b` of the repeated result is the decomposition of base member
+`b % r`, hence diagonalizes batch member `b` of the repeated operator. -/
+theorem batchRepeat_symeig {r : Nat} (hr : 0 < r) (Q A : Fin r → Matrix n n α) (w : Fin r → n → α)
+    (hQ : ∀ b, (Q b)ᵀ * Q b = 1) (hA : ∀ b, Q b * diagonal (w b) * (Q b)ᵀ = A b) (b : Nat) :
+    (Q ⟨b % r, Nat.mod_lt _ hr⟩)ᵀ * Q ⟨b % r, Nat.mod_lt _ hr⟩ = 1 ∧
+      Q ⟨b % r, Nat.mod_lt _ hr⟩ * diagonal (w ⟨b % r, Nat.mod_lt _ hr⟩) * (Q ⟨b % r, Nat.mod_lt _ hr⟩)ᵀ
+        = A ⟨b % r, Nat.mod_lt _ hr⟩ := ⟨hQ _, hA _⟩
+
+/-- Base `_svd` as corrected (fix_4: sign of a zero eigenvalue taken as `+1`): with `sg = where(w < 0, −1, 1)` the factor
+`U = Q·diag(sg)` is orthonormal for **every** spectrum (zero and negative eigenvalues included), `S = |w| ≥ 0`,
+`U diag(S) Vᵀ = A`. -/
+theorem svd_from_symeig_signpos {F : Type} [Field F] [LinearOrder F] [IsStrictOrderedRing F]
+    (Q A : Matrix n n F) (w : n → F) (hQ : Qᵀ * Q = 1) (hA : Q * diagonal w * Qᵀ = A) :
+    (Q * diagonal fun i => if w i < 0 then (-1 : F) else 1) * diagonal (fun i => |w i|) * Qᵀ = A ∧
+      (∀ i, 0 ≤ |w i|) ∧ Qᵀ * Q = 1 ∧
+      (Q * diagonal fun i => if w i < 0 then (-1 : F) else 1)ᵀ * (Q * diagonal fun i => if w i < 0 then (-1 : F) else 1) = 1 := by
+  have h := svd_from_symeig Q A w (fun i => if w i < 0 then (-1 : F) else 1) (fun i => |w i|) hQ hA
+    (fun i => by
+      by_cases hd : w i < 0
+      · simp [hd, abs_of_neg hd]
+      · simp [hd, abs_of_nonneg (not_lt.1 hd)])
+  exact ⟨h.1, fun i => abs_nonneg _, hQ, h.2.2 fun i => by by_cases hd : w i < 0 <;> simp [hd]⟩
+
+/-! ### `_postprocess_lanczos_root_inv_decomp` (initial_vectors / test_vectors of `root_inv_decomposition`) -/
+
+/-- The inverse root returned for `P ≥ 1` probes is candidate number `i* < P`, its modelled residual
+`Σ_b Σ_c ‖A_b R R ᵀ t_{b,c} − t_{b,c}‖` is minimal among the `P` candidates, and every earlier candidate is strictly worse
+(first minimiser, as `residuals.min(0)`).  Any `sqrt`, any sizes, any batch. -/
+theorem postprocess_selects_min {F : Type} [LinearOrder F] [Add F] [Zero F] [Mul F] [Sub F] (sqrt : F → F) {a b c : Nat}
+    (As : List (Mat F a a)) (Ts : List (Mat F a c)) (cands : Nat → List (Mat F a b)) (P : Nat) (hP : 0 < P) :
+    let i := postprocessIndex sqrt As Ts cands P
+    i < P ∧ postprocess sqrt As Ts cands P = cands i ∧
+      (∀ p, p < P → residBatch sqrt As (cands i) Ts ≤ residBatch sqrt As (cands p) Ts) ∧
+      (∀ p, p < i → residBatch sqrt As (cands i) Ts < residBatch sqrt As (cands p) Ts) := by
+  intro i
+  obtain ⟨h1, h2, h3⟩ := argminNat_spec (fun p => residBatch sqrt As (cands p) Ts) (P - 1)
+  refine ⟨?_, rfl, fun p hp => h2 p (by omega), fun p hp => h3 p hp⟩
+  show argminNat _ (P - 1) < P
+  omega
+
+/-- Consequently whatever holds of **every** candidate (each is an inverse root of `A` once its Krylov space is complete,
+`lanczos_rootInv_full` / `rootInv_lanczos_end_to_end`) holds of the returned one. -/
+theorem postprocess_preserves {F : Type} [LinearOrder F] [Add F] [Zero F] [Mul F] [Sub F] (sqrt : F → F) {a b c : Nat}
+    (As : List (Mat F a a)) (Ts : List (Mat F a c)) (cands : Nat → List (Mat F a b)) (P : Nat) (hP : 0 < P)
+    (Good : List (Mat F a b) → Prop) (h : ∀ p, p < P → Good (cands p)) : Good (postprocess sqrt As Ts cands P) :=
+  h _ (postprocess_selects_min sqrt As Ts cands P hP).1
+
+/-! ### End-to-end statements per method (C09 / C10 imported, not assumed) -/
+
+section endToEnd
+open LinOp.C09
+variable {K : Type} [Field K] [LinearOrder K] [IsStrictOrderedRing K] {N : Nat}
+
+/-- **`root_decomposition(method="lanczos")`, end to end** (base class, `N ≠ 1`): the dispatch runs Lanczos with the budget
+`min(max_root_decomposition_size, N)` and one `eigh` of that size (`rootBase`); the model of `lanczos_tridiag` (C09, imported)
+on the closure of the symmetric `A` succeeds with `count ≤` that budget, and — no breakdown on the returned part — for any
+eigendecomposition `(θ, V)` of the jittered `T` with `θ ≥ 0` the root `R = (Q V) θ^{1/2}` that `RootDecomposition.forward`
+assembles satisfies `R Rᵀ = (QQᵀ) A (QQᵀ) + j·QQᵀ` (the orthogonal compression of `A` onto the Krylov space, plus the
+documented jitter), and `R Rᵀ = A + j·1` once `count = N`.  No hypothesis on `Q`, `T`. -/
+theorem root_lanczos_end_to_end {ops : NumOps K} {p : Params K} (hs : C09.SqrtLaw ops) {A : Matrix (Fin N) (Fin N) K}
+    (hA : Aᵀ = A) (c : Cfg) (v : Vec K N) (hv : fn v ⬝ᵥ fn v ≠ 0) (hg : p.guardsSingle = true) (hN : N ≠ 1)
+    (h1 : 1 ≤ min c.maxRoot N) (jit : K) :
+    rootBase N c (some .lanczos) = .ok [.lanczos N (min c.maxRoot N), .symeig (min c.maxRoot N)] "Root" ∧
+    ∃ o, lanczosTridiag ops p (amulOf A) (min c.maxRoot N) v = .ok o ∧ 1 ≤ o.count ∧ o.count ≤ min c.maxRoot N ∧
+      (BetaOK (o.count - 1) o.st →
+        (Matrix.of o.Q)ᵀ * Matrix.of o.Q = 1 ∧ (Matrix.of o.Q)ᵀ * A * Matrix.of o.Q = Matrix.of o.T ∧
+        ∀ (V : Matrix (Fin o.count) (Fin o.count) K) (θ : Fin o.count → K),
+          V * Matrix.diagonal θ * Vᵀ = Matrix.of (jitteredT ltb jit o.T) → (∀ j, 0 ≤ θ j) →
+          lanczosRoot ops (Matrix.of o.Q) V θ * (lanczosRoot ops (Matrix.of o.Q) V θ)ᵀ
+            = (Matrix.of o.Q * (Matrix.of o.Q)ᵀ) * A * (Matrix.of o.Q * (Matrix.of o.Q)ᵀ)
+              + jitterOf ltb jit o.T • (Matrix.of o.Q * (Matrix.of o.Q)ᵀ) ∧
+          (o.count = N →
+            lanczosRoot ops (Matrix.of o.Q) V θ * (lanczosRoot ops (Matrix.of o.Q) V θ)ᵀ
+              = A + jitterOf ltb jit o.T • (1 : Matrix (Fin N) (Fin N) K))) := by
+  refine ⟨by simp [rootBase, hN, lanczosPrims], ?_⟩
+  have h1' : 1 ≤ min (min c.maxRoot N) N := by omega
+  obtain ⟨o, ho, ha, hb, hc⟩ := Lanczos.tridiag_root (p := p) hs hA (min c.maxRoot N) v hv hg h1' jit
+  exact ⟨o, ho, ha, by omega, hc⟩
+
+/-- **`root_inv_decomposition(method="lanczos")`, end to end**: same run; with an orthogonal eigendecomposition of the
+jittered `T` and positive Ritz values the inverse root `R⁻ = (Q V) θ^{-1/2}` satisfies `R⁻ R⁻ᵀ = Q (T + j·1)⁻¹ Qᵀ`, and
+`= (A + j·1)⁻¹` once `count = N`. -/
+theorem rootInv_lanczos_end_to_end {ops : NumOps K} {p : Params K} (hs : C09.SqrtLaw ops) {A : Matrix (Fin N) (Fin N) K}
+    (hA : Aᵀ = A) (c : Cfg) (v : Vec K N) (hv : fn v ⬝ᵥ fn v ≠ 0) (hg : p.guardsSingle = true) (hN : N ≠ 1)
+    (h1 : 1 ≤ min c.maxRoot N) (jit : K) :
+    rootInvBase N c (some .lanczos) = .ok [.lanczos N (min c.maxRoot N), .symeig (min c.maxRoot N)] "Root" ∧
+    ∃ o, lanczosTridiag ops p (amulOf A) (min c.maxRoot N) v = .ok o ∧ 1 ≤ o.count ∧ o.count ≤ min c.maxRoot N ∧
+      (BetaOK (o.count - 1) o.st →
+        ∀ (V : Matrix (Fin o.count) (Fin o.count) K) (θ : Fin o.count → K),
+          V * Matrix.diagonal θ * Vᵀ = Matrix.of (jitteredT ltb jit o.T) → Vᵀ * V = 1 → (∀ j, 0 < θ j) →
+          lanczosRootInv ops (Matrix.of o.Q) V θ * (lanczosRootInv ops (Matrix.of o.Q) V θ)ᵀ
+            = Matrix.of o.Q * (Matrix.of (jitteredT ltb jit o.T))⁻¹ * (Matrix.of o.Q)ᵀ ∧
+          (o.count = N →
+            lanczosRootInv ops (Matrix.of o.Q) V θ * (lanczosRootInv ops (Matrix.of o.Q) V θ)ᵀ
+              = (A + jitterOf ltb jit o.T • (1 : Matrix (Fin N) (Fin N) K))⁻¹)) := by
+  refine ⟨by simp [rootInvBase, hN, lanczosPrims], ?_⟩
+  have h1' : 1 ≤ min (min c.maxRoot N) N := by omega
+  obtain ⟨o, ho, ha, hb, hc⟩ := Lanczos.tridiag_root_inv (p := p) hs hA (min c.maxRoot N) v hv hg h1' jit
+  exact ⟨o, ho, ha, by omega, hc⟩
+
+/-- **`root_decomposition(method="pivoted_cholesky")`, end to end** (the operator is densified first, so the diagonal the
+pivots are chosen from is the exact one): for symmetric positive-definite `A` the dispatch logs one pivoted Cholesky with
+rank bound `min(max_root_decomposition_size, N)`; the model of `PivotedCholesky.forward` (C10, imported) takes `r` pivots,
+`1 ≤ r ≤` that bound; `A − R Rᵀ` is PSD (`R Rᵀ ≤ A`) and vanishes on the `r` pivot rows; it stopped before the bound only
+with relative residual trace `≤ tol`; and `R Rᵀ = A` entry by entry when `r = N`. -/
+theorem root_pivoted_cholesky_end_to_end {P : C10.Prim K} {A : Mat K N N} (hP : C10.SqrtLaw P) (hA : C10.Symm A)
+    (hpd : C10.PD A) (c : Cfg) (tol : K) (hrank : 0 < c.maxRoot) (hN : N ≠ 1) (hn : 0 < N) :
+    rootBase N c (some .pivotedCholesky) = .ok [.pivChol N (min c.maxRoot N)] "Root" ∧
+    (let r := (C10.run P [A] c.maxRoot tol).1
+     let s := C10.iter P A r
+     1 ≤ r ∧ r ≤ min c.maxRoot N ∧ (C10.run P [A] c.maxRoot tol).2 = [s] ∧
+      C10.PSD (C10.resid A s.rows) ∧
+      (∀ j : Fin N, j.val < r → ∀ k, C10.resid A s.rows (s.perm.get j) k = 0) ∧
+      (r < min c.maxRoot N → C10.errAt P [A] r ≤ tol) ∧
+      (r = N → ∀ i k, A i k = C10.lltEntry s.rows i k)) :=
+  ⟨by simp [rootBase, hN], pivchol_root_of_pd hP hA hpd c.maxRoot tol hrank hn⟩
+
+/-- `root_decomposition(method="cholesky" | "symeig" | "svd" | "diagonalization")`, end to end for the exact methods:
+whichever of them is selected, given the primitive's contract the returned `R` satisfies `R Rᵀ = A` (collects
+`root_from_chol`, `root_method_symeig`, `root_method_svd`). -/
+theorem root_exact_methods_end_to_end (A : Matrix n n α) :
+    (∀ L : Matrix n n α, L * Lᵀ = A → L * Lᵀ = A) ∧
+    (∀ (Q : Matrix n k α) (w s : k → α), Q * diagonal w * Qᵀ = A → (∀ i, s i * s i = w i) →
+        (Q * diagonal s) * (Q * diagonal s)ᵀ = A) ∧
+    (∀ (Q : Matrix n k α) (w sg ab s : k → α), Q * diagonal w * Qᵀ = A → (∀ i, s i * s i = ab i) →
+        (∀ i, sg i * sg i * ab i = w i) → ((Q * diagonal sg) * diagonal s) * ((Q * diagonal sg) * diagonal s)ᵀ = A) :=
+  ⟨fun _ h => h, fun Q w s hA hs => root_method_symeig Q A w s hA hs,
+    fun Q w sg ab s hA hs hw => root_method_svd Q A w sg ab s hA hs hw⟩
+
+end endToEnd
+
 /-! ### Method selection -/
 
 /-- `_choose_root_method` without cache hits: Cholesky iff the size is within `max_cholesky_size` or fast
@@ -631,6 +825,20 @@ theorem generated_defaults :
 theorem generated_structure :
     Generated.C06.cholUpperViaTranspose = true ∧ Generated.C06.kronRootInvForwardsMethod = true := by decide +kernel
 
+/-- `root_decomposition(method="pivoted_cholesky")` densifies the operator before `pivoted_cholesky` in today's source, so
+the diagonal the pivots are chosen from is the exact one (`_approx_diagonal` of a dense operator) — the premise under which
+`root_pivoted_cholesky_end_to_end` (C10's model starts from `diag A`) describes this entry point also for operators whose
+own `_approx_diagonal` is only approximate (Interpolated, ConstantMul of it). -/
+theorem generated_pivchol_root_densifies :
+    Generated.C06.pivCholRootReceiver = "to_linear_operator(self.to_dense())" := by decide +kernel
+
+/-- `_postprocess_lanczos_root_inv_decomp` in today's source has the shape `postprocessIndex` mirrors: 2-norm over the
+vector dimension, first minimum over the probe dimension, and the candidate with that index is returned. -/
+theorem generated_postprocess_matches_model :
+    Generated.C06.postprocessResidual = "(mat_times_solves - test_vectors).norm(2, dim=-2)" ∧
+      Generated.C06.postprocessSelect = "residuals.min(0)" ∧
+      Generated.C06.postprocessReturn = "inv_roots[best_solve_index].squeeze(0)" := by decide +kernel
+
 /-- The classes that override a factorization hook are exactly the ones the theorems above and the catalogue
 cover; a new or removed override changes this table and breaks the obligation. -/
 theorem generated_overrides_covered :
@@ -694,5 +902,15 @@ example : ∃ (Q K : Matrix (Fin 1) (Fin 1) ℚ) (w t : Fin 1 → ℚ) (d di ri 
       ∀ i, t i * t i * (w i * di + 1) = 1 :=
   ⟨1, diagonal ![12], ![12], ![1 / 2], 4, 1 / 4, 1 / 2, by simp, by simp, by simp, by norm_num, by norm_num,
     by intro i; fin_cases i; norm_num⟩
+
+/-- hypotheses of the end-to-end Lanczos theorems are satisfiable (C09's real instance: `ℝ`, `Real.sqrt`, `A = [[2,1],[1,3]]`). -/
+example : C09.SqrtLaw C09.realOps ∧ C09.exAᵀ = C09.exA ∧ C09.fn C09.exV ⬝ᵥ C09.fn C09.exV ≠ 0 ∧ C09.exP.guardsSingle = true ∧
+    (2 : Nat) ≠ 1 ∧ 1 ≤ min (Cfg.mk 800 100 true false false false).maxRoot 2 :=
+  ⟨C09.real_instance.1, C09.exA_symm, C09.real_instance.2.2.1, C09.real_instance.2.2.2.1, by decide, by decide⟩
+
+/-- a selection with two candidates whose residuals differ: the second is returned (over `ℚ`, `sqrt := id`). -/
+example : postprocessIndex (fun x : ℚ => x) [fun (_ _ : Fin 1) => (2 : ℚ)] [fun (_ _ : Fin 1) => (1 : ℚ)]
+    (fun p => if p = 0 then [fun (_ _ : Fin 1) => (1 : ℚ)] else [fun (_ _ : Fin 1) => (1 / 2 : ℚ)]) 2 = 1 := by
+  decide +kernel
 
 end LinOp.C06
